@@ -171,6 +171,12 @@ def model_create(before, segs, value, overwrite=True):
 
 def _mmatch(exp, got):
     if exp is PAD or exp == PAD:
+        # a pad slot is a placeholder: a scalar default or an *empty* container - it must not carry content
+        # (its scalar value is not specified by the property and is not compared)
+        if isinstance(got, dict) and "__map__" in got:
+            return len(got["__map__"]) == 0
+        if isinstance(got, list):
+            return len(got) == 0
         return True
     if isinstance(exp, dict) and "__map__" in exp:
         if not (isinstance(got, dict) and "__map__" in got):
